@@ -22,6 +22,7 @@ use std::rc::Rc;
 pub const DEF: PropDef = PropDef { id: "C08", strata, run, setup, canaries: &["panic", "alloc", "io"] };
 
 fn setup(ctx: &mut Ctx) {
+    ctx.floor("fabricated-header-queries", 10_000);
     ctx.floor("files", 1000);
     ctx.floor("opened", 300);
     ctx.floor("alloc-windows", 5000);
@@ -279,6 +280,42 @@ pub fn judge_file_opt(ctx: &mut Ctx, data: &[u8], what: &str, policy: Policy, ch
             let ranges = designated_query(&r, q);
             if !check_reads(ctx, &ev, api, &ranges, what, q.label()) {
                 return;
+            }
+        }
+    }
+    // a long session of caller-made section headers whose ranges are all inside the stream, pairwise different and
+    // mostly large: whatever the parser keeps across calls, no single request may exceed the bound
+    if len >= 64 && ctx.rng.chance(1, 4) {
+        let n = 12 + ctx.rng.usize_below(40);
+        ctx.count("fabricated-header-sessions");
+        for j in 0..n {
+            let off = (j as u64) % (len as u64 / 2);
+            let size = match ctx.rng.below(4) {
+                0 => ctx.rng.below(len as u64 - off + 1),
+                _ => len as u64 - off - ctx.rng.below(((len as u64 - off) / 8).max(1)),
+            };
+            let sh = elf::section::SectionHeader { sh_name: 0, sh_type: k::SHT_PROGBITS, sh_flags: 0, sh_addr: 0, sh_offset: off, sh_size: size, sh_link: 0, sh_info: 0, sh_addralign: 1, sh_entsize: 0 };
+            ctx.eval();
+            let api = 1000 + j as u32;
+            handle.set_api(api);
+            alloc::arm(bound);
+            let res = stream.section_data(&sh).map(|(d, _)| d.len());
+            let rep = alloc::disarm();
+            ctx.count("fabricated-header-queries");
+            if !check_alloc(ctx, &rep, bound, len, what, "section_data(caller-made header)") {
+                return;
+            }
+            if let Ok(l) = res {
+                if l as u64 != size {
+                    ctx.violation("fabricated:section_data:length", format!("{what}: section_data for a caller-made header [{off:#x},+{size:#x}) returned {l} bytes"));
+                    return;
+                }
+            }
+            if check_lazy {
+                let ev = handle.events();
+                if !check_reads(ctx, &ev, api, &vec![(off as u128, off as u128 + size as u128)], what, "section_data(caller-made header)") {
+                    return;
+                }
             }
         }
     }
